@@ -147,7 +147,8 @@ class Ref(
     # Always create a new object.
     # TODO(daiyip): support deep clone with the update of reference when
     # the original value is updated.
-    return Ref(self._value, allow_partial=self.allow_partial)
+    return self.__class__(
+        self._value, allow_partial=self.allow_partial, sealed=self.is_sealed)
 
   def sym_eq(self, other: Any) -> bool:
     return isinstance(other, Ref) and self.value is other.value
